@@ -45,6 +45,8 @@ type Exec struct {
 	Versions []core.Store // project dir after each decision (when requested); Versions[0] = initial
 	Blocked  string       // non-empty: a released process neither announced a point nor exited
 	Preempts int
+	ParkedAt [][]string // per decision: the point each process is parked at ("" = exited)
+	Aborted  bool       // the chooser cut the execution short (sleep-set blocked); not a complete execution
 }
 
 func (e *Exec) Schedule() string {
@@ -67,6 +69,9 @@ type Controller struct {
 	Bin       string
 	Snapshots bool
 	HangAfter time.Duration
+	// Choose, when set, overrides the default choice beyond the prefix: it returns the index into enabled of the
+	// process to release, or -1 to abandon the execution.
+	Choose func(d int, enabled []int, parked []string) int
 }
 
 // Run executes one schedule: choices beyond the prefix default to 0 (keep running the current process;
@@ -260,6 +265,13 @@ func (c *Controller) Run(dir string, sc Scenario, prefix []int, expect []Step) (
 		choice := 0
 		if d < len(prefix) {
 			choice = prefix[d]
+		} else if c.Choose != nil {
+			choice = c.Choose(d, enabled, append([]string{}, parked...))
+			if choice < 0 {
+				ex.Aborted = true
+				killAll()
+				return ex, nil
+			}
 		}
 		if choice < 0 || choice >= len(enabled) {
 			killAll()
@@ -278,6 +290,7 @@ func (c *Controller) Run(dir string, sc Scenario, prefix []int, expect []Step) (
 		ex.Steps = append(ex.Steps, step)
 		ex.Enabled = append(ex.Enabled, enabled)
 		ex.Running = append(ex.Running, running)
+		ex.ParkedAt = append(ex.ParkedAt, append([]string{}, parked...))
 		if ex.StartAt[p] < 0 {
 			ex.StartAt[p] = d
 		}
@@ -346,7 +359,8 @@ type Explorer struct {
 	Check func(ex *Exec)
 
 	Executions int64
-	Complete   bool // false if the deadline cut the exploration
+	Blocked    int64 // sleep-set blocked (abandoned) runs of the unbounded mode
+	Complete   bool  // false if the deadline cut the exploration
 	Err        error
 }
 
@@ -425,6 +439,161 @@ func (x *Explorer) Explore() {
 							cost++
 						}
 					}
+				}
+				mu.Lock()
+				stack = append(stack, children...)
+				active--
+				mu.Unlock()
+				cond.Broadcast()
+			}
+		}(w)
+	}
+	wg.Wait()
+}
+
+// ---------------------------------------------------------------------------------------------
+// unbounded exploration with sleep sets
+
+// opClass abstracts what the step that starts at a hook point does to shared state (everything up to the next
+// point): 'L' lock operation, 'W' store write, 'R' store read, '-' local. The relation is deliberately coarse.
+func opClass(point string) byte {
+	switch point {
+	case "lock.try", "lock.release":
+		return 'L'
+	case "lock.held":
+		return '-'
+	case "append.open", "append.write", "tmp.open", "tmp.write", "tmp.flush", "tmp.sync", "replace.rename", "ensure.create":
+		return 'W'
+	}
+	return 'R' // start (discovers .ergo), path.stat, lock.open, read.*, ensure.stat, replace.syncdir, unknown points
+}
+
+// Independent: the two steps commute and neither enables/disables the other (all processes are always enabled:
+// the lock is non-blocking). Two steps are dependent iff both touch the lock, or both touch the store and one writes.
+func Independent(a, b string) bool {
+	ca, cb := opClass(a), opClass(b)
+	if ca == '-' || cb == '-' {
+		return true
+	}
+	if ca == 'L' || cb == 'L' {
+		return !(ca == 'L' && cb == 'L')
+	}
+	return ca == 'R' && cb == 'R'
+}
+
+type sleepItem struct {
+	procs []int // process released at each decision of the prefix
+	sleep []int // sleep set in the state after the prefix
+}
+
+// ExploreUnbounded enumerates all interleavings modulo the independence relation (sleep sets, no bound).
+// It stops after maxExec complete executions (Complete=false then).
+func (x *Explorer) ExploreUnbounded(maxExec int64) {
+	var mu sync.Mutex
+	stack := []sleepItem{{}}
+	active := 0
+	cond := sync.NewCond(&mu)
+	x.Complete = true
+	var wg sync.WaitGroup
+	for w := 0; w < x.Workers; w++ {
+		wg.Add(1)
+		go func(w int) {
+			defer wg.Done()
+			for {
+				mu.Lock()
+				for len(stack) == 0 && active > 0 && x.Err == nil {
+					cond.Wait()
+				}
+				if x.Err != nil || (len(stack) == 0 && active == 0) {
+					mu.Unlock()
+					cond.Broadcast()
+					return
+				}
+				it := stack[len(stack)-1]
+				stack = stack[:len(stack)-1]
+				active++
+				mu.Unlock()
+				if time.Now().After(x.Deadline) || atomic.LoadInt64(&x.Executions) >= maxExec {
+					mu.Lock()
+					x.Complete = false
+					stack = nil
+					active--
+					mu.Unlock()
+					cond.Broadcast()
+					continue
+				}
+				var children []sleepItem
+				sleep := append([]int{}, it.sleep...) // meaningful from decision len(it.procs) on
+				var released []int                    // processes released so far in this run
+				diverged := false
+				ctl := *x.Ctl
+				ctl.Choose = func(d int, enabled []int, parked []string) int {
+					pick := func(p int) int {
+						for i, q := range enabled {
+							if q == p {
+								released = append(released, p)
+								return i
+							}
+						}
+						return -1
+					}
+					if d < len(it.procs) { // replay the prefix by process id
+						i := pick(it.procs[d])
+						if i < 0 {
+							diverged = true
+						}
+						return i
+					}
+					var todo []int
+					for _, p := range enabled {
+						asleep := false
+						for _, q := range sleep {
+							asleep = asleep || q == p
+						}
+						if !asleep {
+							todo = append(todo, p)
+						}
+					}
+					if len(todo) == 0 {
+						return -1 // sleep-set blocked: every continuation from here is covered by another run
+					}
+					var done, chosenSleep []int
+					for k, p := range todo {
+						var ns []int
+						for _, q := range append(append([]int{}, sleep...), done...) {
+							if q != p && parked[q] != "" && Independent(parked[q], parked[p]) {
+								ns = append(ns, q)
+							}
+						}
+						if k == 0 {
+							chosenSleep = ns
+						} else {
+							children = append(children, sleepItem{procs: append(append([]int{}, released...), p), sleep: ns})
+						}
+						done = append(done, p)
+					}
+					sleep = chosenSleep
+					return pick(todo[0])
+				}
+				ex, err := ctl.Run(x.Dirs[w], x.Scenario, nil, nil)
+				if err == nil && diverged {
+					err = fmt.Errorf("schedule diverged while replaying a sleep-set prefix %v (scenario %s)", it.procs, x.Scenario.Name)
+				}
+				if err != nil {
+					mu.Lock()
+					if x.Err == nil {
+						x.Err = err
+					}
+					active--
+					mu.Unlock()
+					cond.Broadcast()
+					return
+				}
+				if !ex.Aborted {
+					atomic.AddInt64(&x.Executions, 1)
+					x.Check(ex)
+				} else {
+					atomic.AddInt64(&x.Blocked, 1)
 				}
 				mu.Lock()
 				stack = append(stack, children...)
